@@ -6,7 +6,7 @@ PROP = dict(
           "empty/UTF-8/escaped strings, date-times with offsets and nanoseconds), each with omitted and explicitly nil fields, built through six routes (JSON sorted keys + nulls, JSON permuted keys without nulls, "
           "Go map with and without nil entries, GraphQL create on two different nodes); all docIDs must agree and Document.Bytes() is compared with the model's canonical CBOR; "
           "(B) 25 (thorough: 600) generated type graphs with 2-5 types and one-to-one relations incl. circular sets: the same definitions in the given order, 6-20 repetitions (Go map iteration varies), 6-20 random type orders, "
-          "and one AddSchema call per connected component; VersionID and CollectionID per type must agree; a case is one content or one graph"),
+          "permuted field order inside the types (half of the types carry field names that differ only in letter case), one AddSchema call per connected component, and — for graphs with one-sided relations — one AddSchema call per strongly connected component in dependency order (referenced types first); VersionID and CollectionID per type must agree; a case is one content or one graph"),
     assumptions=[
         "sha256 and uuid5 are opaque functions of the bytes (the identifier is compared across routes on the implementation)",
         "floats are multiples of 1/8 that fit IEEE binary16 (the canonical encoder's shortest-float rule is mirrored for those); GraphQL Int literals are 32-bit, larger integers skip the GraphQL route",
